@@ -1615,3 +1615,424 @@ UNDECIDED = [
         (M, '\n\nclass StateMachineMatcher:\n    def __init__(self, merge_slashes: bool) -> None:\n        self._root = State()\n        self.merge_slashes = merge_slashes\n\n    def add(self, rule: Rule) -> None:\n        state = self._root\n        for part in rule._parts:\n            if part.static:\n                state.static.setdefault(part.content, State())\n                state = state.static[part.content]\n            else:\n                for test_part, new_state in state.dynamic:\n                    if test_part == part:\n                        state = new_state\n                        break\n                else:\n                    new_state = State()\n                    state.dynamic.append((part, new_state))\n                    state = new_state\n        state.rules.append(rule)\n\n    def update(self) -> None:\n        # For every state the dynamic transitions should be sorted by\n        # the weight of the transition\n        state = self._root\n\n        def _update_state(state: State) -> None:\n            state.dynamic.sort(key=lambda entry: entry[0].weight)\n            for new_state in state.static.values():\n                _update_state(new_state)\n            for _, new_state in state.dynamic:\n                _update_state(new_state)\n\n        _update_state(state)\n', '\n    def follow(self, part: RulePart) -> State:\n        """The state reached via *part*, adding the transition if needed."""\n        if part.static:\n            try:\n                return self.static[part.content]\n            except KeyError:\n                self.static[part.content] = new_state = State()\n                return new_state\n\n        for test_part, new_state in self.dynamic:\n            if test_part == part:\n                return new_state\n\n        new_state = State()\n        self.dynamic.append((part, new_state))\n        return new_state\n\n    def sort_transitions(self) -> None:\n        """Order the dynamic transitions by weight, here and below."""\n        self.dynamic[:] = sorted(self.dynamic, key=lambda entry: entry[0].weight)\n        for new_state in self.static.values():\n            new_state.sort_transitions()\n        for _, new_state in self.dynamic:\n            new_state.sort_transitions()\n\n\nclass StateMachineMatcher:\n    def __init__(self, merge_slashes: bool) -> None:\n        self._root = State()\n        self.merge_slashes = merge_slashes\n\n    def add(self, rule: Rule) -> None:\n        state = self._root\n        for part in rule._parts:\n            state = state.follow(part)\n        state.rules.append(rule)\n\n    def update(self) -> None:\n        # For every state the dynamic transitions should be sorted by\n        # the weight of the transition\n        self._root.sort_transitions()\n'),
     ]},
 ]
+
+
+# ---- R3.11 (detection round 3, seed C03-L): NoMatch only after the search has been run.  The tail of match() in six
+# neutral spellings (attempt closure + guard clauses, a closure / a private method that raises NoMatch, one shared final
+# raise, exception bound then raised, walrus), each with a fast reject in front of the search in the same spelling.
+_R11_FIRST = (
+    "        try:\n"
+    "            rv = _match(self._root, [domain, *path.split(\"/\")], [])\n"
+    "        except SlashRequired:\n"
+    "            raise RequestPath(f\"{path}/\") from None\n"
+    "\n"
+)
+_R11_RETRY = (
+    "        if self.merge_slashes and rv is None:\n"
+    "            # Try to match again, but with slashes merged\n"
+    "            path = re.sub(\"/{2,}?\", \"/\", path)\n"
+    "            try:\n"
+    "                rv = _match(self._root, [domain, *path.split(\"/\")], [])\n"
+    "            except SlashRequired:\n"
+    "                raise RequestPath(f\"{path}/\") from None\n"
+    "            if rv is None or rv[0].merge_slashes is False:\n"
+    "                raise NoMatch(have_match_for, websocket_mismatch)\n"
+    "            else:\n"
+    "                raise RequestPath(f\"{path}\")\n"
+)
+_R11_CONV_HEAD = "        elif rv is not None:\n"
+_R11_CONV = (
+    "            rule, values = rv\n"
+    "\n"
+    "            result = {}\n"
+    "            for name, value in zip(rule._converters.keys(), values):\n"
+    "                try:\n"
+    "                    value = rule._converters[name].to_python(value)\n"
+    "                except ValidationError:\n"
+    "                    raise NoMatch(have_match_for, websocket_mismatch) from None\n"
+    "                result[str(name)] = value\n"
+    "            if rule.defaults:\n"
+    "                result.update(rule.defaults)\n"
+    "\n"
+    "            if rule.alias and rule.map.redirect_defaults:\n"
+    "                raise RequestAliasRedirect(result, rule.endpoint)\n"
+    "\n"
+    "            return rule, result\n"
+)
+_R11_LAST = "\n        raise NoMatch(have_match_for, websocket_mismatch)\n"
+_R11_TAIL = _R11_FIRST + _R11_RETRY + _R11_CONV_HEAD + _R11_CONV + _R11_LAST
+_R11_INIT = "        have_match_for = set()\n        websocket_mismatch = False\n"
+_R11_UPDATE = "    def update(self) -> None:\n"
+
+
+def _dedent1(block):
+    return "".join(l[4:] if l.startswith("    ") else l for l in block.splitlines(True))
+
+
+_R11_SEARCH = (
+    "        def _search(p: str) -> t.Any:\n"
+    "            try:\n"
+    "                return _match(self._root, [domain, *p.split(\"/\")], [])\n"
+    "            except SlashRequired:\n"
+    "                raise RequestPath(f\"{p}/\") from None\n"
+    "\n"
+)
+
+
+def _r11_guard_style(reject: str = "") -> str:
+    """closure for one attempt, guard clauses; `reject` = a statement put in front of the closure's search"""
+    search = _R11_SEARCH.replace("            try:\n", reject + "            try:\n", 1)
+    return (
+        search
+        + "        rv = _search(path)\n"
+        "        if rv is None:\n"
+        "            if not self.merge_slashes:\n"
+        "                raise NoMatch(have_match_for, websocket_mismatch)\n"
+        "            path = re.sub(\"/{2,}?\", \"/\", path)\n"
+        "            rv = _search(path)\n"
+        "            if rv is None or rv[0].merge_slashes is False:\n"
+        "                raise NoMatch(have_match_for, websocket_mismatch)\n"
+        "            raise RequestPath(f\"{path}\")\n"
+        + _dedent1(_R11_CONV)
+    )
+
+
+def _r11_fail_closure(reject: str = "") -> list:
+    fail = "        def _fail() -> t.NoReturn:\n            raise NoMatch(have_match_for, websocket_mismatch)\n\n"
+    tail = (fail + reject + _R11_TAIL).replace("                raise NoMatch(have_match_for, websocket_mismatch)\n            else:\n", "                _fail()\n            else:\n")
+    tail = tail.replace(_R11_LAST, "\n        _fail()\n")
+    return [(M, _R11_TAIL, tail)]
+
+
+def _r11_shared_final_raise(reject: str = "") -> list:
+    tail = (
+        _R11_FIRST
+        + reject
+        + "        if rv is not None:\n"
+        + _R11_CONV
+        + "        if self.merge_slashes:\n"
+        "            path = re.sub(\"/{2,}?\", \"/\", path)\n"
+        "            try:\n"
+        "                rv = _match(self._root, [domain, *path.split(\"/\")], [])\n"
+        "            except SlashRequired:\n"
+        "                raise RequestPath(f\"{path}/\") from None\n"
+        "            if rv is not None and rv[0].merge_slashes is not False:\n"
+        "                raise RequestPath(f\"{path}\")\n"
+        + _R11_LAST
+    )
+    return [(M, _R11_TAIL, tail)]
+
+
+def _r11_method(early: bool) -> list:
+    meth = (
+        "    def _no_match(self, have_match_for: set[str], websocket_mismatch: bool) -> t.NoReturn:\n"
+        "        raise NoMatch(have_match_for, websocket_mismatch)\n"
+        "\n"
+    )
+    tail = _R11_TAIL.replace(_R11_LAST, "\n        self._no_match(have_match_for, websocket_mismatch)\n")
+    if early:
+        tail = "        if len(path) > 2000:\n            self._no_match(have_match_for, websocket_mismatch)\n\n" + tail
+    return [(M, _R11_UPDATE, meth + _R11_UPDATE), (M, _R11_TAIL, tail)]
+
+
+TWINS += [
+    {"name": "r11:attempt-closure-guard-clauses", "edits": [(M, _R11_TAIL, _r11_guard_style())]},
+    {"name": "r11:fail-closure-raises-nomatch", "edits": _r11_fail_closure()},
+    {"name": "r11:one-shared-final-raise", "edits": _r11_shared_final_raise()},
+    {"name": "r11:nomatch-raised-by-private-method", "edits": _r11_method(False)},
+    {"name": "r11:exception-bound-then-raised", "edits": [(M, _R11_LAST, "\n        no_match = NoMatch(have_match_for, websocket_mismatch)\n        raise no_match\n")]},
+    {"name": "r11:walrus-first-attempt-parts-hoisted", "edits": [(M, _R11_FIRST + "        if self.merge_slashes and rv is None:\n",
+        "        parts = [domain, *path.split(\"/\")]\n        try:\n            found = _match(self._root, parts, [])\n        except SlashRequired:\n            raise RequestPath(f\"{path}/\") from None\n\n        if (rv := found) is None and self.merge_slashes:\n")]},
+]
+_REJ = "        if len(path) > 2000:\n            raise NoMatch(have_match_for, websocket_mismatch)\n\n"
+MUTANTS += [
+    {"name": "r11:fast-reject-before-first-search", "expect": "R3.11", "edits": [(M, _R11_FIRST, _REJ + _R11_FIRST)]},
+    {"name": "r11:fast-reject-before-the-search-is-defined", "expect": "R3.11", "edits": [(M, _R11_INIT, _R11_INIT + "        if path.count(\"/\") > self._root_depth:\n            raise NoMatch(set(), False)\n")]},
+    {"name": "r11:fast-reject-inside-attempt-closure", "expect": "R3.11", "edits": [(M, _R11_TAIL, _r11_guard_style("            if len(p) > 2000:\n                raise NoMatch(have_match_for, websocket_mismatch)\n"))]},
+    {"name": "r11:fast-reject-through-fail-closure", "expect": "R3.11", "edits": _r11_fail_closure("        if self.merge_slashes and path.count(\"//\") > 1:\n            _fail()\n\n")},
+    {"name": "r11:fast-reject-through-private-method", "expect": "R3.11", "edits": _r11_method(True)},
+    {"name": "r11:prebuilt-exception-raised-before-search", "expect": "R3.11", "edits": [(M, _R11_FIRST, "        too_deep = NoMatch(have_match_for, websocket_mismatch)\n        if len(path) > 2000:\n            raise too_deep\n\n" + _R11_FIRST)]},
+]
+
+
+# five of the twelve refactorings of the tail of match() that a fresh author wrote for the stress pass of R3.11 (all
+# twelve were silent at first run), as (name, old text, new text); each with a fast reject in front of the first search
+_R11_EXT = [('closure-returns-the-exception',
+  '\n'
+  '        try:\n'
+  '            rv = _match(self._root, [domain, *path.split("/")], [])\n'
+  '        except SlashRequired:\n'
+  '            raise RequestPath(f"{path}/") from None\n'
+  '\n'
+  '        if self.merge_slashes and rv is None:\n'
+  '            # Try to match again, but with slashes merged\n'
+  '            path = re.sub("/{2,}?", "/", path)\n'
+  '            try:\n'
+  '                rv = _match(self._root, [domain, *path.split("/")], [])\n'
+  '            except SlashRequired:\n'
+  '                raise RequestPath(f"{path}/") from None\n'
+  '            if rv is None or rv[0].merge_slashes is False:\n'
+  '                raise NoMatch(have_match_for, websocket_mismatch)\n'
+  '            else:\n'
+  '                raise RequestPath(f"{path}")\n'
+  '        elif rv is not None:\n'
+  '            rule, values = rv\n'
+  '\n'
+  '            result = {}\n'
+  '            for name, value in zip(rule._converters.keys(), values):\n'
+  '                try:\n'
+  '                    value = rule._converters[name].to_python(value)\n'
+  '                except ValidationError:\n'
+  '                    raise NoMatch(have_match_for, websocket_mismatch) from None\n'
+  '                result[str(name)] = value\n'
+  '            if rule.defaults:\n'
+  '                result.update(rule.defaults)\n'
+  '\n'
+  '            if rule.alias and rule.map.redirect_defaults:\n'
+  '                raise RequestAliasRedirect(result, rule.endpoint)\n'
+  '\n'
+  '            return rule, result\n'
+  '\n'
+  '        raise NoMatch(have_match_for, websocket_mismatch)\n',
+  '\n'
+  '        def _no_match() -> NoMatch:\n'
+  '            # Built lazily, _match keeps updating both values while\n'
+  '            # it walks the states.\n'
+  '            return NoMatch(have_match_for, websocket_mismatch)\n'
+  '\n'
+  '        try:\n'
+  '            rv = _match(self._root, [domain, *path.split("/")], [])\n'
+  '        except SlashRequired:\n'
+  '            raise RequestPath(f"{path}/") from None\n'
+  '\n'
+  '        if self.merge_slashes and rv is None:\n'
+  '            # Try to match again, but with slashes merged\n'
+  '            path = re.sub("/{2,}?", "/", path)\n'
+  '            try:\n'
+  '                rv = _match(self._root, [domain, *path.split("/")], [])\n'
+  '            except SlashRequired:\n'
+  '                raise RequestPath(f"{path}/") from None\n'
+  '            if rv is None or rv[0].merge_slashes is False:\n'
+  '                raise _no_match()\n'
+  '            else:\n'
+  '                raise RequestPath(f"{path}")\n'
+  '        elif rv is not None:\n'
+  '            rule, values = rv\n'
+  '\n'
+  '            result = {}\n'
+  '            for name, value in zip(rule._converters.keys(), values):\n'
+  '                try:\n'
+  '                    value = rule._converters[name].to_python(value)\n'
+  '                except ValidationError:\n'
+  '                    raise _no_match() from None\n'
+  '                result[str(name)] = value\n'
+  '            if rule.defaults:\n'
+  '                result.update(rule.defaults)\n'
+  '\n'
+  '            if rule.alias and rule.map.redirect_defaults:\n'
+  '                raise RequestAliasRedirect(result, rule.endpoint)\n'
+  '\n'
+  '            return rule, result\n'
+  '\n'
+  '        raise _no_match()\n'),
+ ('branches-flipped-single-final-raise',
+  '\n'
+  '        if self.merge_slashes and rv is None:\n'
+  '            # Try to match again, but with slashes merged\n'
+  '            path = re.sub("/{2,}?", "/", path)\n'
+  '            try:\n'
+  '                rv = _match(self._root, [domain, *path.split("/")], [])\n'
+  '            except SlashRequired:\n'
+  '                raise RequestPath(f"{path}/") from None\n'
+  '            if rv is None or rv[0].merge_slashes is False:\n'
+  '                raise NoMatch(have_match_for, websocket_mismatch)\n'
+  '            else:\n'
+  '                raise RequestPath(f"{path}")\n'
+  '        elif rv is not None:\n'
+  '            rule, values = rv\n'
+  '\n'
+  '            result = {}\n'
+  '            for name, value in zip(rule._converters.keys(), values):\n'
+  '                try:\n'
+  '                    value = rule._converters[name].to_python(value)\n'
+  '                except ValidationError:\n'
+  '                    raise NoMatch(have_match_for, websocket_mismatch) from None\n'
+  '                result[str(name)] = value\n'
+  '            if rule.defaults:\n'
+  '                result.update(rule.defaults)\n'
+  '\n'
+  '            if rule.alias and rule.map.redirect_defaults:\n'
+  '                raise RequestAliasRedirect(result, rule.endpoint)\n'
+  '\n'
+  '            return rule, result\n'
+  '\n',
+  '\n'
+  '        if rv is not None:\n'
+  '            rule, values = rv\n'
+  '\n'
+  '            result = {}\n'
+  '            for name, value in zip(rule._converters.keys(), values):\n'
+  '                try:\n'
+  '                    value = rule._converters[name].to_python(value)\n'
+  '                except ValidationError:\n'
+  '                    raise NoMatch(have_match_for, websocket_mismatch) from None\n'
+  '                result[str(name)] = value\n'
+  '            if rule.defaults:\n'
+  '                result.update(rule.defaults)\n'
+  '\n'
+  '            if rule.alias and rule.map.redirect_defaults:\n'
+  '                raise RequestAliasRedirect(result, rule.endpoint)\n'
+  '\n'
+  '            return rule, result\n'
+  '        elif self.merge_slashes:\n'
+  '            # Try to match again, but with slashes merged\n'
+  '            path = re.sub("/{2,}?", "/", path)\n'
+  '            try:\n'
+  '                rv = _match(self._root, [domain, *path.split("/")], [])\n'
+  '            except SlashRequired:\n'
+  '                raise RequestPath(f"{path}/") from None\n'
+  '            if rv is not None and rv[0].merge_slashes is not False:\n'
+  '                raise RequestPath(f"{path}")\n'
+  '\n'),
+ ('try-except-else',
+  '                raise RequestPath(f"{path}/") from None\n'
+  '            if rv is None or rv[0].merge_slashes is False:\n'
+  '                raise NoMatch(have_match_for, websocket_mismatch)\n'
+  '            else:\n'
+  '                raise RequestPath(f"{path}")\n'
+  '        elif rv is not None:\n'
+  '            rule, values = rv\n'
+  '\n'
+  '            result = {}\n'
+  '            for name, value in zip(rule._converters.keys(), values):\n'
+  '                try:\n'
+  '                    value = rule._converters[name].to_python(value)\n'
+  '                except ValidationError:\n'
+  '                    raise NoMatch(have_match_for, websocket_mismatch) from None\n'
+  '                result[str(name)] = value\n'
+  '            if rule.defaults:\n',
+  '                raise RequestPath(f"{path}/") from None\n'
+  '            else:\n'
+  '                if rv is None or rv[0].merge_slashes is False:\n'
+  '                    raise NoMatch(have_match_for, websocket_mismatch)\n'
+  '                raise RequestPath(f"{path}")\n'
+  '        elif rv is not None:\n'
+  '            rule, values = rv\n'
+  '\n'
+  '            result = {}\n'
+  '            for name, value in zip(rule._converters.keys(), values):\n'
+  '                try:\n'
+  '                    converted = rule._converters[name].to_python(value)\n'
+  '                except ValidationError:\n'
+  '                    raise NoMatch(have_match_for, websocket_mismatch) from None\n'
+  '                else:\n'
+  '                    result[str(name)] = converted\n'
+  '            if rule.defaults:\n'),
+ ('conditional-expression-picks-the-exception',
+  '                raise RequestPath(f"{path}/") from None\n'
+  '            if rv is None or rv[0].merge_slashes is False:\n'
+  '                raise NoMatch(have_match_for, websocket_mismatch)\n'
+  '            else:\n'
+  '                raise RequestPath(f"{path}")\n'
+  '        elif rv is not None:\n'
+  '            rule, values = rv\n'
+  '\n'
+  '            result = {}\n'
+  '            for name, value in zip(rule._converters.keys(), values):\n'
+  '                try:\n',
+  '                raise RequestPath(f"{path}/") from None\n'
+  '            raise (\n'
+  '                NoMatch(have_match_for, websocket_mismatch)\n'
+  '                if rv is None or rv[0].merge_slashes is False\n'
+  '                else RequestPath(f"{path}")\n'
+  '            )\n'
+  '        elif rv is not None:\n'
+  '            rule = rv[0]\n'
+  '\n'
+  '            result = {}\n'
+  '            for name, value in zip(rule._converters.keys(), rv[1]):\n'
+  '                try:\n'),
+ ('locals-renamed-merged-path-own-local',
+  '\n'
+  '        try:\n'
+  '            rv = _match(self._root, [domain, *path.split("/")], [])\n'
+  '        except SlashRequired:\n'
+  '            raise RequestPath(f"{path}/") from None\n'
+  '\n'
+  '        if self.merge_slashes and rv is None:\n'
+  '            # Try to match again, but with slashes merged\n'
+  '            path = re.sub("/{2,}?", "/", path)\n'
+  '            try:\n'
+  '                rv = _match(self._root, [domain, *path.split("/")], [])\n'
+  '            except SlashRequired:\n'
+  '                raise RequestPath(f"{path}/") from None\n'
+  '            if rv is None or rv[0].merge_slashes is False:\n'
+  '                raise NoMatch(have_match_for, websocket_mismatch)\n'
+  '            else:\n'
+  '                raise RequestPath(f"{path}")\n'
+  '        elif rv is not None:\n'
+  '            rule, values = rv\n'
+  '\n'
+  '            result = {}\n'
+  '            for name, value in zip(rule._converters.keys(), values):\n'
+  '                try:\n'
+  '                    value = rule._converters[name].to_python(value)\n'
+  '                except ValidationError:\n'
+  '                    raise NoMatch(have_match_for, websocket_mismatch) from None\n'
+  '                result[str(name)] = value\n'
+  '            if rule.defaults:\n'
+  '                result.update(rule.defaults)\n'
+  '\n'
+  '            if rule.alias and rule.map.redirect_defaults:\n'
+  '                raise RequestAliasRedirect(result, rule.endpoint)\n'
+  '\n'
+  '            return rule, result\n'
+  '\n',
+  '\n'
+  '        segments = [domain, *path.split("/")]\n'
+  '        try:\n'
+  '            found = _match(self._root, segments, [])\n'
+  '        except SlashRequired:\n'
+  '            raise RequestPath(f"{path}/") from None\n'
+  '\n'
+  '        if self.merge_slashes and found is None:\n'
+  '            # Try to match again, but with slashes merged\n'
+  '            merged_path = re.sub("/{2,}?", "/", path)\n'
+  '            segments = [domain, *merged_path.split("/")]\n'
+  '            try:\n'
+  '                found = _match(self._root, segments, [])\n'
+  '            except SlashRequired:\n'
+  '                raise RequestPath(f"{merged_path}/") from None\n'
+  '            if found is None or found[0].merge_slashes is False:\n'
+  '                raise NoMatch(have_match_for, websocket_mismatch)\n'
+  '            else:\n'
+  '                raise RequestPath(f"{merged_path}")\n'
+  '        elif found is not None:\n'
+  '            rule, raw_values = found\n'
+  '\n'
+  '            converted = {}\n'
+  '            for name, raw in zip(rule._converters.keys(), raw_values):\n'
+  '                try:\n'
+  '                    value = rule._converters[name].to_python(raw)\n'
+  '                except ValidationError:\n'
+  '                    raise NoMatch(have_match_for, websocket_mismatch) from None\n'
+  '                converted[str(name)] = value\n'
+  '            if rule.defaults:\n'
+  '                converted.update(rule.defaults)\n'
+  '\n'
+  '            if rule.alias and rule.map.redirect_defaults:\n'
+  '                raise RequestAliasRedirect(converted, rule.endpoint)\n'
+  '\n'
+  '            return rule, converted\n'
+  '\n')]
+_R11_EXT_REJECT = {
+    "closure-returns-the-exception": ("        try:\n            rv = _match(", "        if len(path) > 2000:\n            raise _no_match()\n\n        try:\n            rv = _match("),
+    "locals-renamed-merged-path-own-local": ("        segments = [domain, *path.split(\"/\")]\n        try:\n", "        segments = [domain, *path.split(\"/\")]\n        if len(segments) > self._max_parts + 1:\n            raise NoMatch(have_match_for, websocket_mismatch)\n        try:\n"),
+}
+TWINS += [{"name": "r11:fresh:" + nm, "edits": [(M, old, new)]} for nm, old, new in _R11_EXT]
+MUTANTS += [
+    {"name": "r11:fresh:" + nm + "+fast-reject", "expect": "R3.11", "edits": (
+        [(M, old, new.replace(*_R11_EXT_REJECT[nm], 1))] if nm in _R11_EXT_REJECT else [(M, old, new), (M, _R11_FIRST, _REJ + _R11_FIRST)]
+    )}
+    for nm, old, new in _R11_EXT
+]
